@@ -5,13 +5,23 @@ use crate::model::pack_words;
 use crate::obs::*;
 use bio_seq::prelude::*;
 
-/// length, emptiness, every symbol (iterator, nth, get), display and out-of-range `get`
+/// length, emptiness, every symbol through the iterator, and display
+/// (positional accessors are C03's subject: see `check_indexed`)
 pub fn check_content<C: Cm>(sy: &Syms<C>, s: &SeqSlice<C>, codes: &[u8], site: &str) -> R<()> {
     let n = codes.len();
     ensure_eq!(s.len(), n, format!("{site}/len"), "length");
     ensure_eq!(s.is_empty(), n == 0, format!("{site}/is_empty"), "is_empty");
     let got: Vec<u8> = no_panic(&format!("{site}/iter_panic"), "iterating", || s.iter().take(n + 2).map(|x| x.to_bits()).collect())?;
     ensure_eq!(got, codes.to_vec(), format!("{site}/symbols"), "symbol codes via iter()");
+    let txt = no_panic(&format!("{site}/display_panic"), "to_string", || s.to_string())?;
+    ensure_eq!(txt, sy.text(codes), format!("{site}/display"), "display");
+    Ok(())
+}
+
+/// `check_content` plus every positional accessor: nth(i), get(i), get(len) == None
+pub fn check_indexed<C: Cm>(sy: &Syms<C>, s: &SeqSlice<C>, codes: &[u8], site: &str) -> R<()> {
+    check_content(sy, s, codes, site)?;
+    let n = codes.len();
     for i in 0..n {
         let a = no_panic(&format!("{site}/nth_panic"), "nth", || s.nth(i))?;
         ensure_eq!(a.to_bits(), codes[i], format!("{site}/nth"), "nth({i})");
@@ -20,8 +30,6 @@ pub fn check_content<C: Cm>(sy: &Syms<C>, s: &SeqSlice<C>, codes: &[u8], site: &
     }
     let g = no_panic(&format!("{site}/get_panic"), "get(len)", || s.get(n))?;
     ensure!(g.is_none(), format!("{site}/get_end"), "get(len) returned a symbol {g:?}");
-    let txt = no_panic(&format!("{site}/display_panic"), "to_string", || s.to_string())?;
-    ensure_eq!(txt, sy.text(codes), format!("{site}/display"), "display");
     Ok(())
 }
 
